@@ -311,6 +311,11 @@ package vm
 //@   loop OpMethodNilSafe invariant[count] call.Size - 1 - i >= 0 && call.Size - 1 - i <= 140737488355328
 //@   loop OpArray invariant[pops] len(vm.stack) == pre(len(vm.stack)) - (size - 1 - i)
 //@   loop OpArray invariant[count] size - 1 - i >= 0 && size - 1 - i <= 140737488355328
+// every argument already placed in the vector is a valid reflect.Value (an untyped nil goes in as the Elem of a
+// pointer to it): reflect.Value.Call panics on a zero Value argument (C01: calls fail only when the function does)
+//@   loop OpCall invariant[args-valid] forall(k, i+1, len(in), isvalid(in[k]))
+//@   loop OpMethod invariant[args-valid] forall(k, i+1, len(in), isvalid(in[k]))
+//@   loop OpMethodNilSafe invariant[args-valid] forall(k, i+1, len(in), isvalid(in[k]))
 //@   loop OpCall invariant[i] i >= -1
 //@   loop OpCallFast invariant[i] i >= -1
 //@   loop OpMethod invariant[i] i >= -1
